@@ -1,5 +1,6 @@
 import Bxh.Proofs.ExecLemmas
 import Bxh.Proofs.ExecRec
+import Bxh.Proofs.ExecListed
 import Bxh.Props.C02
 import Bxh.Props.C06
 import Bxh.Proofs.ExecBlock
@@ -509,5 +510,188 @@ example :
       m 1 .interchain .beginRollback, m 1 .receiptSuccess .none, m 1 .interchain .none]) t = some .failure ∧
     recStatus (runIbtps env l [m 1 .interchain .beginRollback]) t = some .begin := by
   decide
+
+/-! ### the hypothesis about the timeout lists, discharged
+
+`C04_block_history_final_stays` assumes that the final record is never on the list of the height whose timeout step runs.
+Below that assumption is replaced by an invariant the blocks themselves maintain: a final record that is on no list of a
+height still to come stays final *and* stays off those lists, whatever the blocks contain. -/
+
+section Closed
+open Bxh.Props.C02
+
+
+theorem recStatus_some {l : Led} {t : TxId} {st : Status} (h : recStatus l t = some st) :
+    ∃ r, l.getS (.txRec t) = some (.trec r) ∧ r.status = st := by
+  unfold recStatus at h
+  split at h
+  · rename_i r hr; cases h; exact ⟨r, hr, rfl⟩
+  · cases h
+
+/-- the notice of the other hub is refused for a record that is final -/
+theorem tmBeginInter_final_refused (l : Led) (cur : Nat) (id : TxId) (tt : Nat) (x : Ext) (f : Bool) (r : Rec)
+    (hrec : l.getS (.txRec id) = some (.trec r)) (hf : r.status.isFinal = true) :
+    ∃ e, tmBeginInter l cur id tt x f = .error e := by
+  unfold tmBeginInter
+  rw [hrec]
+  simp only
+  split
+  · exact ⟨_, rfl⟩
+  · rw [C04_final_absorbing_step _ _ hf]
+    exact ⟨_, rfl⟩
+
+/-- **a request that names a finished transaction is never handled successfully**: as a fresh request its index is behind the
+pair's counter, as the other hub's notice it meets a final record -/
+theorem handleIBTP_final_request_refused (env : Env) (l : Led) (i : Ibtp) (t : TxId) (st : Status) (r : Led × String)
+    (hI : FinalInv env l t st) (hf : st.isFinal = true)
+    (hfr : i.frm = some t.frm) (hto : i.to = some t.to) (hix : i.index = t.index) (hreq : i.typ.isRequest = true)
+    (h : handleIBTP env l i = .ok r) : False := by
+  obtain ⟨hd, hb, hs⟩ := hI
+  obtain ⟨ck, hck⟩ := handleIBTP_ok_checked h
+  obtain ⟨e1, e2⟩ := checkIBTP_ends hck
+  have hsrc : ck.src = t.frm := by rw [hfr] at e1; exact (Option.some.inj e1).symm
+  have hdst : ck.dst = t.to := by rw [hto] at e2; exact (Option.some.inj e2).symm
+  cases hn : ck.notice with
+  | false =>
+    have hnb : ck.isBatch = false := orderedDst_not_batch (by rw [hdst]; exact hd) hck hreq hn
+    have hidx := C02_accept_needs_next_index env l i ck hck hreq hn hnb
+    unfold reqCounter at hb
+    rw [hsrc, hdst] at hidx
+    omega
+  | true =>
+    obtain ⟨hne, _, _, _⟩ := checkIBTP_notice_true hck hn
+    obtain ⟨rec, hrec, hst⟩ := recStatus_some hs
+    have hid : ({ frm := ck.src, to := ck.dst, index := i.index } : TxId) = t := by
+      rw [hsrc, hdst, hix]
+    obtain ⟨e, he⟩ := tmBeginInter_final_refused l env.height t (toU64 i.timeout) i.ext ck.targetErr rec hrec (by rw [hst]; exact hf)
+    unfold handleIBTP at h
+    simp only [hck, hreq, if_true] at h
+    unfold beginTransaction at h
+    simp only [hid, ne_eq, hne, not_false_eq_true, if_true, he] at h
+    cases h
+
+/-- its receipt is a failure, whatever else the transaction carries -/
+theorem C04_request_for_final_refused (env : Env) (l : Led) (tx : Tx) (inv : Option String) (t : TxId) (st : Status)
+    (hI : FinalInv env l t st) (hf : st.isFinal = true) (s : String) (i : Ibtp) (p : ProofKind) (htx : tx = .ibtp s i p)
+    (hfr : i.frm = some t.frm) (hto : i.to = some t.to) (hix : i.index = t.index) (hreq : i.typ.isRequest = true) :
+    (applyTx env l tx inv).2.rcpt.ok = false := by
+  have hI0 : FinalInv env (txStart l) t st := ⟨hI.ordered.mono (fun _ _ => rfl), hI.bound, hI.status⟩
+  have hres : ∀ ret, (applyBxh env (txStart l) tx inv).2.1 ≠ .ok ret := by
+    intro ret hh
+    subst htx
+    unfold applyBxh at hh
+    split at hh
+    · cases hh
+    · simp only at hh
+      split at hh
+      · rename_i l' ret' hok
+        exact handleIBTP_final_request_refused env (txStart l) i t st (l', ret') hI0 hf hfr hto hix hreq hok
+      · split at hh
+        · split at hh <;> cases hh
+        · cases hh
+  unfold applyTx
+  simp only
+  split
+  · simp only
+    cases hr : (applyBxh env (txStart l) tx inv).2.1 with
+    | ok ret => exact absurd hr (hres ret)
+    | error e =>
+      have hr' : (applyBxh env { l with journal := [], events := [] } tx inv).2.1 = .error e := hr
+      rw [hr']; rfl
+  · rfl
+
+/-- a final record that is on no timeout list of a height still to come -/
+structure FinalInvL (env : Env) (l : Led) (cur : Nat) (t : TxId) (st : Status) : Prop where
+  base : FinalInv env l t st
+  unlisted : ∀ d, cur < d → ¬ listedAt l d t
+
+theorem execBlock_height (cfg : Cfg) (n : Node) (txs : List (Tx × Bool)) : (execBlock cfg n txs).1.height = n.height + 1 := rfl
+
+/-- **a whole block keeps a final record final and off every list still to come** — no hypothesis about the lists any more:
+the transactions of the block put no one-to-one id on a list (`StepsT`), and the bookkeeping adds an id only for a request
+with a successful receipt, which a request naming a finished transaction never gets -/
+theorem C04_block_final_stays_unlisted (cfg : Cfg) (n : Node) (txs : List (Tx × Bool)) (t : TxId) (st : Status)
+    (hI : FinalInvL { cfg := cfg, cache := n.cache, height := 0, txIndex := 0 } n.led n.height t st) (hf : st.isFinal = true)
+    (hnd : ∀ p ∈ txs, ∀ sg args, p.1 ≠ .bvm sg "interchain" "DeleteInterchain" args) :
+    FinalInvL { cfg := cfg, cache := (execBlock cfg n txs).1.cache, height := 0, txIndex := 0 } (execBlock cfg n txs).1.led
+      (execBlock cfg n txs).1.height t st := by
+  have hconv : ∀ {l' : Led} {e1 e2 : Env}, e2.cache = e1.cache → e2.cfg.bxh = e1.cfg.bxh → FinalInv e1 l' t st → FinalInv e2 l' t st :=
+    fun hc hb h => ⟨orderedDst_env hc hb h.ordered, h.bound, h.status⟩
+  -- the serial loop: the invariant, and what it says about every (transaction, receipt) pair
+  have loop := applyTxs_zip_inv cfg n.cache (n.height + 1)
+    (fun tx => ∀ sg args, tx ≠ .bvm sg "interchain" "DeleteInterchain" args)
+    (fun l => FinalInv { cfg := cfg, cache := n.cache, height := 0, txIndex := 0 } l t st ∧ ∀ d, n.height < d → ¬ listedAt l d t)
+    (fun tx rc => ∀ s i p, tx = .ibtp s i p → i.frm = some t.frm → i.to = some t.to → i.index = t.index → i.typ.isRequest = true → rc.ok = false)
+    (by
+      intro idx l tx inv hg hp
+      refine ⟨?_, fun d hd hl => hp.2 d hd (applyTx_listed _ _ _ _ d t hl)⟩
+      exact hconv (e1 := { cfg := cfg, cache := n.cache, height := n.height + 1, txIndex := idx }) rfl rfl
+        (C04_tx_final_stays _ l tx inv t st (hconv (e1 := { cfg := cfg, cache := n.cache, height := 0, txIndex := 0 }) rfl rfl hp.1) hf hg))
+    (by
+      intro idx l tx inv _ hp s i p htx hfr hto hix hreq
+      exact C04_request_for_final_refused _ l tx inv t st
+        (hconv (e1 := { cfg := cfg, cache := n.cache, height := 0, txIndex := 0 }) rfl rfl hp.1) hf s i p htx hfr hto hix hreq)
+    n.led ⟨hI.base, hI.unlisted⟩ txs hnd
+  obtain ⟨⟨_, hul⟩, hq⟩ := loop
+  -- after the bookkeeping the id is on no list above the old height
+  have hnl : ∀ d, n.height < d → ¬ listedAt (setTimeoutList cfg (applyTxs cfg n.cache (n.height + 1) n.led txs).led (n.height + 1) (txs.map (·.1))
+      (applyTxs cfg n.cache (n.height + 1) n.led txs).rcpts) d t := by
+    intro d hd hl
+    rcases setTimeoutList_listed _ _ _ _ _ d t hl with h1 | h1
+    · exact hul d hd h1
+    · have hm := mem_addsAt h1
+      obtain ⟨pr, hpr, hact⟩ := List.mem_map.mp hm
+      obtain ⟨s, i, p, htx, hfr, hto, hix, hreq, hok⟩ := timeoutAct_add hact
+      have := hq pr hpr s i p htx hfr hto hix hreq
+      rw [this] at hok
+      cases hok
+  refine ⟨?_, ?_⟩
+  · exact C04_block_final_stays cfg n txs t st hI.base hf hnd
+      (fun hm => hnl (n.height + 1) (Nat.lt_succ_self _) (listedAt_of_mem_getTimeoutList hm))
+  · intro d hd hl
+    rw [execBlock_height] at hd
+    apply hnl d (by omega)
+    unfold execBlock at hl
+    simp only at hl
+    refine (listedAt_congr ?_).mp hl
+    rw [getS_of_store (finalise_store _), setTimeoutRollback_frame _ _ _ (by intro x e; cases e) (by intro x e; cases e)]
+
+/-- **SUCCESS, FAILURE and ROLLBACK are final over every history of blocks** (any transactions, fees paid or not, timeouts in
+between): a final record that is on no list of a height still to come stays what it is — the only assumption left about the
+history is that nobody calls the unguarded `DeleteInterchain` (an open finding of C17) -/
+theorem C04_block_history_final_stays_unlisted (cfg : Cfg) (blocks : List (List (Tx × Bool))) (n : Node) (t : TxId) (st : Status)
+    (hI : FinalInvL { cfg := cfg, cache := n.cache, height := 0, txIndex := 0 } n.led n.height t st) (hf : st.isFinal = true)
+    (hnd : ∀ b ∈ blocks, ∀ p ∈ b, ∀ sg args, p.1 ≠ .bvm sg "interchain" "DeleteInterchain" args) :
+    recStatus (runBlocks cfg n blocks).led t = some st ∧
+    ∀ d, (runBlocks cfg n blocks).height < d → ¬ listedAt (runBlocks cfg n blocks).led d t := by
+  suffices H : FinalInvL { cfg := cfg, cache := (runBlocks cfg n blocks).cache, height := 0, txIndex := 0 } (runBlocks cfg n blocks).led
+      (runBlocks cfg n blocks).height t st from ⟨H.base.status, H.unlisted⟩
+  induction blocks generalizing n with
+  | nil => exact hI
+  | cons b rest ih =>
+    have hstep := C04_block_final_stays_unlisted cfg n b t st hI hf (hnd b (List.mem_cons_self ..))
+    have := ih (execBlock cfg n b).1 hstep (fun b' hb' => hnd b' (List.mem_cons_of_mem _ hb'))
+    simpa [runBlocks] using this
+
+
+/-- non-vacuity: a SUCCESS record of the pair c1:s1 → c2:s1 whose counter has passed its index, no timeout list stored -/
+example :
+    let svc : Svc := { ordered := true, blacklist := [], available := true }
+    let s11 : SvcId := { bxh := "1356", chain := "c1", sid := "s1" }
+    let s21 : SvcId := { bxh := "1356", chain := "c2", sid := "s1" }
+    let t : TxId := { frm := s11, to := s21, index := 1 }
+    let l : Led := { store := [(.svc "c1" "s1", .svc svc), (.svc "c2" "s1", .svc svc), (.txRec t, .trec { height := 9, status := .success }),
+      (.ic s11, .ic { ic := [(s21, 1)] })] }
+    FinalInvL { cfg := {}, cache := [], height := 0, txIndex := 0 } l 7 t .success := by
+  intro svc s11 s21 t l
+  refine ⟨⟨Or.inr ⟨by decide, by decide, rfl, ?_⟩, by decide, by decide⟩, ?_⟩
+  · intro sv h
+    have : l.getS (.svc s21.chain s21.sid) = some (.svc svc) := by decide
+    rw [this] at h
+    cases h; rfl
+  · rintro d _ ⟨lst, e, _⟩
+    simp [l, Led.getS, KV.get] at e
+
+end Closed
 
 end Bxh.Props.C04
